@@ -150,7 +150,7 @@ fn gen_count(r: &mut Rng, zero_ok: bool) -> u32 {
     match r.weighted(&[if zero_ok { 3 } else { 0 }, 8, 6, 2, 2, 1]) { 0 => 0, 1 => 1 + r.below(3) as u32, 2 => r.below(100000) as u32 + 1, 3 => u32::MAX, 4 => u32::MAX - 1, _ => 1 << 31 }
 }
 fn gen_index(r: &mut Rng) -> i32 {
-    match r.weighted(&[6, 6, 3, 1, 1, 1]) { 0 => r.below(4) as i32, 1 => -(r.below(4) as i32) - 1, 2 => r.below(100000) as i32 - 50000, 3 => i32::MAX, 4 => i32::MIN, _ => 0 }
+    match r.weighted(&[6, 6, 3, 1, 1, 1]) { 0 => r.below(12) as i32, 1 => -(r.below(12) as i32) - 1, 2 => r.below(100000) as i32 - 50000, 3 => i32::MAX, 4 => i32::MIN, _ => 0 }
 }
 fn gen_leaf(r: &mut Rng) -> GE {
     match r.weighted(&[8, 3, 4, 12, 3, if EXTRAS { 2 } else { 0 }]) {
@@ -201,7 +201,7 @@ fn gen_body(r: &mut Rng, d: u32) -> GE {
     for _ in 0..40 { let e = gen_ge(r, d); if !validator_rejects(&e) || r.chance(1, 50) { return e; } }
     GE::Id("a".into())
 }
-const RULE_NAMES: &[&str] = &["r", "rule", "_r", "R_2", "PEEKr", "POP_", "PUS_", "__r", "Q", "pushed"];
+const RULE_NAMES: &[&str] = &["rr", "rule", "_r", "R_2", "PEEKr", "POP_", "PUS_", "__r", "Q", "pushed"];
 fn gen_rules(r: &mut Rng, d: u32) -> Vec<GRule> {
     let n = r.weighted(&[0, 6, 3, 2, 1]);
     let tys = [Ty::Normal, Ty::Normal, Ty::Silent, Ty::Atomic, Ty::Compound, Ty::NonAtomic];
@@ -373,7 +373,14 @@ impl<'w> Run<'w> {
             for r in &expected { features(&r.e, &mut f); }
             if f.0 { t.mixed_levels += 1; } if f.1 { t.same_level_nests += 1; } if f.2 { t.prefix_postfix += 1; }
             if (f.0 || f.1 || f.2) && self.seen.insert(text.to_string()) { t.nontrivial += 1; }
-        } else if res == "Invalid" { t.invalid += 1; }
+        } else if res == "Invalid" {
+            t.invalid += 1;
+            // validate_ast (mirrored above for grammars whose identifiers are not rules) accepts the grammar as written: the reader built another tree
+            if !known && !expected.iter().any(|r| validator_rejects(&r.e)) {
+                t.contract += 1;
+                writeln!(self.w, "CONTRACT\t{}\timpl Invalid (validate_ast rejects what was read, but accepts the grammar as written) expected {}", case, want).unwrap();
+            }
+        }
         else if known { t.known += 1; }
         else { t.contract += 1; writeln!(self.w, "CONTRACT\t{}\timpl {} expected {}", case, res, want).unwrap(); }
     }
